@@ -549,8 +549,9 @@ class C19(Spec):
         return ps
 
     def extra_stages(self, rep, tier, rng, broken):
-        rep.cov["program_model_and_contract_proofs"] = ["theta_update_sketch_base (update_tuple_sketch)"]
-        rep.cov["program_model_tied_by_correspondence_contracts_pending"] = ["kll_sketch + kll_helper", "reverse_purge_hash_map + frequent_items_sketch"]
+        rep.cov["program_model_and_contract_proofs"] = ["theta_update_sketch_base (update_tuple_sketch)",
+                                                        "reverse_purge_hash_map + frequent_items_sketch"]
+        rep.cov["program_model_tied_by_correspondence_contracts_pending"] = ["kll_sketch + kll_helper"]
         rep.cov["modelled_not_verified_monitored_only"] = MONITORED_NAMES
 
 
